@@ -213,6 +213,13 @@ C03declared(post, al, scn) ==
 
 (* pre-state with the unschedule flags as the observer knows them (L1 traces):  *)
 (* marked = the environment marked the instance on the server it is still on  *)
+ObsMarksL2(pre, line) ==
+  IF "obs_marks" \notin DOMAIN line THEN pre
+  ELSE [pre EXCEPT !.apps = [n \in DOMAIN pre.apps |->
+          IF n \in SetOf(line.obs_marks_unknown) THEN pre.apps[n]
+          ELSE [pre.apps[n] EXCEPT !.unschedule =
+                  (n \in DOMAIN line.obs_marks /\ line.obs_marks[n] = pre.apps[n].server)]]]
+
 ObsMarks(pre, mk, kind) ==
   IF kind # "l1" THEN pre
   ELSE [pre EXCEPT !.apps = [n \in DOMAIN pre.apps |->
@@ -242,7 +249,8 @@ CycleFail(rawpre, line, rawpost) ==
                  post.apps[a].server \in SrvNames(post) =>
                    post.servers[post.apps[a].server].label = line.declared[a])
         ELSE {})
-  \cup F("C08.frozenKeep", C08frozenKeep(ObsMarks(pre, aux.marks, Traces[t].kind), post, q))
+  \cup F("C08.frozenKeep", C08frozenKeep(IF Traces[t].kind = "l1" THEN ObsMarks(pre, aux.marks, "l1")
+                                          ELSE ObsMarksL2(pre, line), post, q))
   \cup F("C08.frozenNoNew", C08frozenNoNew(pre, post))
   \cup F("C08.blacklist", C08blacklist(post))
   \cup (LET op == ObsPre(pre, aux, line, Traces[t]) IN
